@@ -318,6 +318,14 @@ def run(ck):
                     v = read_path(it, env, dec, "fhp_or_lvop")
                     ck.verdict("D-TABLE", fn, f"no pointer decoded ({tag})", [] if v.k == "const" and v.a[0] is None else [show(v)[:40]], "None", nontrivial=False)
                 R.check_slice_extent(ck, read_path(it, env, dec, "tfdz"), "raw_tfdf", Lin({}, 3 if ptr else 1), Lin({el: 1}), fn, f"data zone == raw[{3 if ptr else 1} : exact_len] ({tag})")
+                # the decoded object reports the size it packs to (the decoder goes through its own construction path)
+                try:
+                    from ..terms import bcat_len, as_bcat
+                    pk = call_method(it, env, dec, "pack", [], dict(truncated=C(trunc), frame_type=NONE if ft is None else T("const", f"FrameType.{ft}", ty=ftq)))
+                    if not env.dead and pk.k == "bcat":
+                        R.check_lin_equal(ck, call_method(it, env, dec, "len"), linearize(bcat_len(pk)), fn, f"len() of the decoded data field == octets it packs to ({tag})", rule="L-LEN")
+                except Unsupported as e:
+                    ck.unknown("L-LEN", fn, f"len() of the decoded data field == octets it packs to ({tag})", str(e))
     it = new_interp(P); env = Env()
     dec = call_method(it, env, T("class", P.cls(f"{FQ}.TransferFrameDataField").qual), "unpack", [], dict(raw_tfdf=rt, truncated=C(False), exact_len=el, frame_type=NONE))
     R.check_field_bits(ck, it, read_path(it, env, dec, "tfdz_contr_rules"), data_bits_be("raw_tfdf", 0, 3), "TransferFrameDataField.unpack", "rules == bits 7..5 of octet 0 (symbolic)")
